@@ -31,13 +31,14 @@ REQUIRED = ["mixed_case_extension", "near_miss_name", "bare_extension_name", "du
             "both_kinds_plus_duplicate", "nested_dir_with_simfile", "empty_dir", "loose_simfile_in_pack", "stray_text_file",
             "utf16_file", "native", "memory", "ignore_duplicate", "sub_directory_named_like_a_simfile",
             "song_directory_named_like_an_audio_or_image_file", "pack_with_simfiles_in_different_encodings",
-            "name_not_in_unicode_normal_form_c", "simfile_name_starting_with_dot_underscore",
+            "name_not_in_unicode_normal_form_c", "simfile_name_starting_with_dot_underscore", "near_miss_name_ending_in_a_line_feed_or_blank",
             "tree_rebuilt_at_the_same_path_under_the_same_filesystem_object"]
 
 # (the two names with U+0301 / U+212B are NOT in Unicode normal form C: file names are what the filesystem says they are)
 SM_NAMES = ["song.sm", "Song.SM", "x.Sm", "a b.sm", ".sm", "chart.old.sm", "z.sM", "Cafe\u0301.sm", "._Song.sm"]
 SSC_NAMES = ["song.ssc", "Song.SSC", "x.sSc", "a b.ssc", ".ssc", "chart.sm.ssc", "z.SsC", "Poke\u0301mon \u212b.SSC", "._x.SSC"]
-NEAR = ["song.sm.old", "song.ssca", "sm", "ssc", "SM", "x.smx", "song.sm~", "song.ssc.bak", "notes.dwi", "sm.txt", "song.s", "asm", "song_sm"]
+NEAR = ["song.sm.old", "song.ssca", "sm", "ssc", "SM", "x.smx", "song.sm~", "song.ssc.bak", "notes.dwi", "sm.txt", "song.s", "asm", "song_sm",
+        "song.sm\n", "x.SSC\n", "song.ssc ", "song.sm\t"]   # a simfile name followed by a line feed / blank is not a simfile name
 OTHER = ["banner.png", "bg.jpg", "music.ogg", "readme.txt", "Thumbs.db", "video.avi", "Song 0", "sub0", "Pack.1"]   # the last three: files named as directories usually are
 
 
@@ -329,6 +330,8 @@ def observe(ctx, d, sms, sscs):
         ctx.feat("utf16_file")
     if any(kind_of(n) for n in d["dirs"]):
         ctx.feat("sub_directory_named_like_a_simfile")
+    if any(n.endswith(("\n", " ", "\t")) for n in names):
+        ctx.feat("near_miss_name_ending_in_a_line_feed_or_blank")
     if any(kind_of(n) and n.startswith("._") for n in names):
         ctx.feat("simfile_name_starting_with_dot_underscore")
     import unicodedata
